@@ -9,7 +9,43 @@ Each job is one test binary invocation pattern:
   pkg      harness package (default ./props)
 """
 
+_HIST_ASSUME = [
+    "one server per process (the settable clock is a process global); the rotation and impact loops are stepped through verif-tagged gates, so the harness owns their schedule",
+    "the rotation trigger is observed, not predicted: the model rotates as often as the window moved and requires each move to be a valid rotation (C20 measures the trigger)",
+    "live impact rates are random in the test build; they are observed and only their conservation through rotation is checked",
+]
+
 PROPS = {
+    "C04": {
+        "level": "exploration",
+        "jobs": [
+            {"run": "^TestC04", "checks": {"quick": 30, "thorough": 500}, "shards": {"quick": 2, "thorough": 16}, "shrink_s": 60},
+        ],
+        "assumptions": _HIST_ASSUME + ["the clock is parked at the window start while an instance shuts down, so that shutdown itself never rotates the window"],
+    },
+    "C06": {
+        "level": "exploration",
+        "jobs": [
+            {"run": "^TestC06", "checks": {"quick": 50, "thorough": 800}, "shards": {"quick": 2, "thorough": 16}, "shrink_s": 60},
+        ],
+        "assumptions": _HIST_ASSUME + ["first authorizations of distinct ids carry distinct keys; key reuse is generated only inside conflicts (DESIGN.md section 6)",
+                                       "an authorization is 'identical' when its 148 bytes are identical"],
+    },
+    "C07": {
+        "level": "exploration",
+        "jobs": [
+            {"run": "^TestC07", "checks": {"quick": 60, "thorough": 600}, "shards": {"quick": 2, "thorough": 10}, "shrink_s": 60},
+            {"run": "^TestC07", "race": True, "checks": {"quick": 0, "thorough": 250}, "shards": {"quick": 0, "thorough": 6}, "shrink_s": 60},
+        ],
+        "assumptions": _HIST_ASSUME + ["concurrent batches are judged by a schedule-independent oracle (exactly one success; authority only for the winner)"],
+    },
+    "C03": {
+        "level": "exploration",
+        "jobs": [
+            {"run": "^TestC03", "checks": {"quick": 25, "thorough": 400}, "shards": {"quick": 2, "thorough": 16}, "shrink_s": 60},
+        ],
+        "assumptions": _HIST_ASSUME,
+    },
     "C01": {
         "level": "exploration",
         "jobs": [
@@ -68,6 +104,26 @@ PROPS = {
 
 # Texts for MANIFEST.json.
 META = {
+    "C04": {
+        "technique": "stateful property-based testing with a restart injected after every prefix, oracle = reference model equality after each restart",
+        "text": "Generated histories of registrations, authorizations (incl. conflicts and bans), reports (incl. banned slots), rotations and clock jumps; in half of the cases the server is restarted after every single action, otherwise at drawn points, with clocks that need zero, one or several catch-up rotations and with double restarts. After each restart the start must succeed and the full state must equal the model; the public surface and the data files are cross-checked. Exploration only.",
+        "note": "Authorized servers and migration orders are excluded as the property says. Live impact rates are not persisted by design and are excluded.",
+    },
+    "C06": {
+        "technique": "stateful property-based testing of authorization sequences through the JSON endpoint against a reference model",
+        "text": "Generated sequences of new, duplicate, conflicting (single-field, 1-ulp, sign-of-zero, key reuse), forged and foreign-signed authorizations and submissions for banned ids, interleaved with reports, rotations and restarts; the model of devices and bans, the key index of every device, all public views of banned ids, the server's own CheckInvariants and the authorization file are checked. Exploration only.",
+        "note": "Latitude/longitude are any finite float64; capacity bounded as documented.",
+    },
+    "C07": {
+        "technique": "stateful property-based testing with concurrent registration batches, schedule-independent oracle; thorough tier partly under the race detector",
+        "text": "Generated histories start unregistered and mix registration attempts of every kind, concurrent batches of valid registrations for different candidates with simultaneous authority probes, restarts, and authority probes on the three GCA-gated endpoints signed by every key around. Exactly one registration may ever succeed and only the winner's signatures may be honoured. Exploration only.",
+        "note": "The interleavings of a batch are whatever the Go scheduler produces; the oracle does not depend on who wins.",
+    },
+    "C03": {
+        "technique": "stateful property-based testing (rapid state machine) against a reference model with remembered first responses",
+        "text": "Generated histories (traffic, bans, clock advances, granted rotation/impact steps, restarts with catch-up, statistics queries with and without parameters) run against the real server; every rotation must archive exactly the model's values and the observed impact rates under a valid server signature over the reference layout; the first record served for an archived week is remembered and every later plain GET must be byte-identical; the statistics file must equal the concatenated reference serialisations. Exploration only.",
+        "note": "Trusts the reference model and codec; impact rates are compared as observed values; device order inside a record is not prescribed by the property and is compared as a set at rotation time, then frozen by the first-response rule.",
+    },
     "C01": {
         "technique": "property-based testing of generated datagrams against a reference acceptance predicate and reference server model",
         "text": "Generated worlds and datagram sequences (random bytes, boundary reports, mutations, re-signings under every other key) are delivered through the real UDP socket at generated clock values; after every datagram the complete server state and the persisted report log are compared with a reference model that only changes for reports satisfying the stated predicate; the public surface is compared at the end of each case. Exploration only.",
